@@ -9,6 +9,7 @@ import (
 	"reflect"
 	"strings"
 	"time"
+	"unsafe"
 
 	"verifharness/drv"
 	"verifharness/gen"
@@ -510,6 +511,8 @@ func famC10(e *emitter, g *gen.G, thorough bool) {
 			e.emit(fmt.Sprintf("list/%d", i), []time.Time{t, t.Add(time.Hour)})
 			e.emit(fmt.Sprintf("scalars/%d", i), &zoo.Scalars{T: t, S: "s"})
 			e.emit(fmt.Sprintf("slicefield/%d", i), zoo.Slices{Ts: []time.Time{t}})
+			e.emit(fmt.Sprintf("slicezero/%d", i), zoo.Slices{Ts: []time.Time{t, {}, t.Add(time.Minute), {}}})
+			e.emitStructsOnly(fmt.Sprintf("slicezero/%d/untyped", i), zoo.Slices{Ts: []time.Time{t, {}, t.Add(time.Minute), {}}})
 			t1, t2 := t, t.Add(time.Second)
 			e.emit(fmt.Sprintf("ptrfield/%d", i), &zoo.HPTime{P: &t1, Q: &t2})
 			e.emit(fmt.Sprintf("ptrshared/%d", i), zoo.HPTime{P: &t1, Q: &t1})
@@ -977,8 +980,9 @@ func famC13(e *emitter, g *gen.G, thorough bool) {
 		"chanslice":  func() interface{} { return []chan int{make(chan int)} },
 		"cplxslice":  func() interface{} { return []complex64{1} },
 		"uintptr":    func() interface{} { return uintptr(7) },
+		"unsafeptr":  func() interface{} { x := 1; return unsafe.Pointer(&x) },
 	}
-	names := []string{"chan", "func", "complex64", "complex128", "chanarr", "chanslice", "cplxslice", "uintptr"}
+	names := []string{"chan", "func", "complex64", "complex128", "chanarr", "chanslice", "cplxslice", "uintptr", "unsafeptr"}
 	reps := 1
 	if thorough {
 		reps = 20
@@ -1022,6 +1026,14 @@ func famC13(e *emitter, g *gen.G, thorough bool) {
 				return map[interface{}]interface{}{mk(): int32(1)}
 			}())
 			e.emit("deep/"+nm, []interface{}{map[string]interface{}{"l": []interface{}{zoo.BadInList{L: []interface{}{int32(5), mk()}}}}})
+		}
+		// containers whose DECLARED element / key / value type is an unsupported kind
+		var up unsafe.Pointer = unsafe.Pointer(&r)
+		for i, v := range []interface{}{[]unsafe.Pointer{up}, map[string]unsafe.Pointer{"k": up}, map[unsafe.Pointer]string{up: "v"},
+			[]func(){func() {}}, map[string]chan int{"k": make(chan int)}, map[chan int]string{make(chan int): "v"}, []uintptr{1, 2},
+			map[string]complex128{"k": 1i}, map[complex64]int32{1i: 1}, [2]unsafe.Pointer{up, up}, [][]unsafe.Pointer{{up}},
+			map[string][]func(){"k": {func() {}}}, []interface{}{int32(1), []unsafe.Pointer{up}}, zoo.Small{}, up} {
+			e.emit(fmt.Sprintf("declared/%d", i), v)
 		}
 		// a field that is not exported cannot be written (the decoder could not set it): an error, no panic
 		e.emit("field/unexported", zoo.NewUnexp(1, 2))
